@@ -42,7 +42,11 @@ VALUES = {
     "Origin": [b"null", b"file://", b"http://example.com.evil.com", b"http://evilexample.com",
                b"https://example.com:8443", b"not a url", b"http://example.com:80",
                b"http://a.example.com", b"http://a.example.com.evil.org", b"http://EXAMPLE.com",
-               b"http://example.com/", b"http://example.co", b"http://xexample.com"],
+               b"http://example.com/", b"http://example.co", b"http://xexample.com",
+               # one allow-list entry continued (port digits, further labels) / cut short
+               b"http://example.com:8080", b"http://example.com:801", b"http://www.example.com:80",
+               b"http://www.example.com:8", b"https://shop.example.org", b"https://shop.example.org:4430",
+               b"http://example.com:80.evil.org"],
     "Sec-WebSocket-Protocol": [b"chat", b"chat, chat", b"", b"superchat,chat", b"ch at"],
 }
 EXTRA_HEADERS = [("Sec-WebSocket-Extensions", b"permessage-deflate"),
@@ -65,6 +69,9 @@ SERVER_CFGS = [
     {"name": "default"},
     {"name": "origin-exact", "allowedOrigins": ["http://example.com:80"], "allowNullOrigin": False},
     {"name": "origin-wild", "allowedOrigins": ["*://*.example.com:*"], "allowNullOrigin": True},
+    # several entries: each one is matched against the whole origin
+    {"name": "origin-multi", "allowedOrigins": ["http://example.com:80", "https://*.example.org:443",
+                                                "http://www.example.com:80"], "allowNullOrigin": False},
     {"name": "limit-reached", "maxConnections": 1, "currentConnections": 2},
     {"name": "limit-ok", "maxConnections": 2, "currentConnections": 2},
     {"name": "nowebstatus", "webStatus": False},
